@@ -188,10 +188,21 @@ class _NxtView(object):
         return getattr(self._st, name)
 
 
+def in_pre(untouched, container_addr):
+    """the value is read from an array the function has not written AND out of a container that itself existed at entry:
+    only then is it known to have been allocated before entry (a container handed out fresh by a callee may hold fresh
+    objects although the array term is still the entry one)"""
+    if untouched is False or untouched is None:
+        return False
+    return container_addr < z3.Int('next0')
+
+
 def shape(st, term, ty, pre=False):
     """depth-1 shape predicate of a value for a static type (E-PARSE / declared object invariants)"""
-    if pre:
+    if pre is True:
         st = _NxtView(st, z3.Int('next0'))
+    elif pre is not False and pre is not None:
+        st = _NxtView(st, z3.If(pre, z3.Int('next0'), st.nxt))
     if isinstance(ty, Ty.TAny):
         # closed heap: a reference stored anywhere points to an allocated object
         return Implies(is_ref(term), And(va(term) >= 0, va(term) < st.nxt))
